@@ -1,5 +1,5 @@
 \* emission (thorough): 4 temperatures, 10 kind pairs x 4 constructions, every behaviour of up to 3 calls
-CONSTANTS NT = 4  NV = 1  MaxLevel = 4
+CONSTANTS NT = 4  NV = 1  MaxLevel = 3
   KindChoices <- McKindsEmit  TempChoices <- McTempsEmit4  LinkPairs <- McLinks
 ACTION_CONSTRAINT Emit
 INVARIANT EmitState
